@@ -122,7 +122,7 @@ Definition dec_quo (x y : dec) : dec :=
   | NaN, _ | _, NaN => NaN
   | Inf a, Inf b => NaN
   | Inf a, Fin b _ _ => Inf (xorb a b)
-  | Fin a _ _, Inf b => Fin (xorb a b) 0 0
+  | Fin a _ _, Inf b => Fin (xorb a b) 0 (-6176)        (* a zero with the smallest exponent of decimal128 (Etiny) *)
   | Fin n1 c1 e1, Fin n2 c2 e2 =>
     if c2 =? 0 then (if c1 =? 0 then NaN else Inf (xorb n1 n2))
     else if c1 =? 0 then Fin (xorb n1 n2) 0 (e1 - e2)
